@@ -837,7 +837,8 @@ func det3Exception(c *Ctx, pk *packages.Package, fd *ast.FuncDecl, par map[ast.N
 		}
 		return ""
 	case full == "path/filepath.Abs" && pk.PkgPath == modPath+"/internal/codegen":
-		// absDir may only feed filepath.Join whose result is only used as a key of a map literal (the overlay)
+		// the absolute directory may only be turned into other paths (Join, Clean, EvalSymlinks, copies)
+		// and end as the key of a map literal (the go/packages overlay); it never reaches emitted text
 		as, ok := par[call].(*ast.AssignStmt)
 		if !ok || len(as.Lhs) < 1 {
 			return ""
@@ -847,43 +848,66 @@ func det3Exception(c *Ctx, pk *packages.Package, fd *ast.FuncDecl, par map[ast.N
 			return ""
 		}
 		fpar := parents(fd)
-		var joined []types.Object
+		pathFns := map[string]bool{"path/filepath.Join": true, "path/filepath.Clean": true, "path/filepath.EvalSymlinks": true, "path/filepath.Abs": true, "path/filepath.ToSlash": true, "path/filepath.FromSlash": true}
+		paths := map[types.Object]bool{v: true}
 		ok = true
-		ast.Inspect(fd.Body, func(m ast.Node) bool {
-			id, isId := m.(*ast.Ident)
-			if !isId || info.Uses[id] != v {
-				return true
-			}
-			cc, isCall := fpar[id].(*ast.CallExpr)
-			if !isCall || fullName(calleeFunc(info, cc)) != "path/filepath.Join" {
-				ok = false
-				return true
-			}
-			if as2, isAs := fpar[cc].(*ast.AssignStmt); isAs && len(as2.Lhs) == 1 {
-				joined = append(joined, usesObj(info, as2.Lhs[0]))
-			} else {
-				ok = false
-			}
-			return true
-		})
-		if !ok || len(joined) == 0 {
-			return ""
-		}
-		for _, j := range joined {
+		nKeys := 0
+		for changed := true; changed && ok; {
+			changed = false
 			ast.Inspect(fd.Body, func(m ast.Node) bool {
 				id, isId := m.(*ast.Ident)
-				if !isId || info.Uses[id] != j {
+				if !isId || !paths[info.Uses[id]] {
 					return true
 				}
-				kv, isKV := fpar[id].(*ast.KeyValueExpr)
-				if !isKV || kv.Key != ast.Expr(id) {
+				switch q := fpar[id].(type) {
+				case *ast.CallExpr:
+					if !pathFns[fullName(calleeFunc(info, q))] {
+						ok = false
+						return true
+					}
+					// the result becomes a path value too
+					switch r := fpar[q].(type) {
+					case *ast.AssignStmt:
+						if o := usesObj(info, r.Lhs[0]); o != nil && !paths[o] {
+							paths[o] = true
+							changed = true
+						}
+					case *ast.IfStmt: // if x, err := f(p); err == nil { ... }
+					default:
+						ok = false
+					}
+				case *ast.AssignStmt:
+					// p2 = p  (copy), or the defining assignment itself
+					for i, rh := range q.Rhs {
+						if rh == ast.Expr(id) && i < len(q.Lhs) {
+							if o := usesObj(info, q.Lhs[i]); o != nil && !paths[o] {
+								paths[o] = true
+								changed = true
+							}
+						}
+					}
+				case *ast.KeyValueExpr:
+					if q.Key != ast.Expr(id) {
+						ok = false
+					}
+				default:
 					ok = false
 				}
 				return true
 			})
 		}
-		if ok {
-			return "the absolute directory only forms the key of the go/packages overlay map; it never reaches emitted text"
+		for o := range paths {
+			ast.Inspect(fd.Body, func(m ast.Node) bool {
+				if id, isId := m.(*ast.Ident); isId && info.Uses[id] == o {
+					if kv, isKV := fpar[id].(*ast.KeyValueExpr); isKV && kv.Key == ast.Expr(id) {
+						nKeys++
+					}
+				}
+				return true
+			})
+		}
+		if ok && nKeys > 0 {
+			return "the absolute directory only forms the key of the go/packages overlay map (through path functions); it never reaches emitted text"
 		}
 		return ""
 	}
